@@ -288,7 +288,7 @@ func C02(r *drv.Run) {
 	if !quick(r) {
 		nprog, ntext = 100000, 16
 	}
-	r.Rule = "thorough tier: one named loop of 1 100 and one of 10 052 iterations with an optional capture bound in eight of them - the loop's map has one entry per iteration and exactly those eight hold the binding; capture-heavy generator: `= name` bindings inside first alternatives that then fail, inside maybe/at most/at least 0 iterations that get abandoned, inside recursive subroutines, followed by back-references; inputs are near misses derived from the program; a quarter of the programs under a random amount clause (skip / take / top / last: expected = that window of the reference's list); plus an exhaustive family of 18 capture shapes (two with a named loop that captures inside a stored pattern) (one with two names differing only in letter case) (4 of them inside named loops, directly / under an inner unnamed loop / under an inner named loop) x 4^3 literal choices x all texts over {a,b} up to length 4; and 4 shapes with an OPTIONAL capture on the path tried last (last alternative, lazy loop body, lazy optional) x 3^3 literals x all texts over {a,b,c} up to length 4. Long bindings: `line start whole line = x` then a line feed and a back-reference to x on two-line texts whose first line has 100 .. 70 000 bytes (thorough: .. 262 145; lengths on both sides of 4 096 and 65 536) and whose second line is the first, differs in its first / middle / last / last-but-one / 65 535th / 65 536th byte, is longer or one byte shorter (expected from the text alone). Regex literals with 9..12 numbered groups and a two-digit back-reference (160 generated ones). Name reuse: three programs in which a named loop takes over the name of an earlier capture and a back-reference to that name follows, on texts that hold the printed forms of internal values ([ValueHashMap], map[], <nil> ...) right there: the reference matches nothing. Oracle: reference backtracker with a persistent environment gives the exact expected variable map of every match (spans AND flat variables must equal). Non-trivial = expected match carries >= 1 binding AND the VM backtracked; distinct by (program, text). One random program in thirty has 9..101 captures in a row followed by 1..6 back-references to some of them (last one included), on texts with matching and nearly matching blocks."
+	r.Rule = "short captures that BEGIN 101 .. 131 074 bytes into a match (behind one whole line of that length; both sides of 4 096 and 65 536), decided by a back-reference; thorough tier: one named loop of 1 100 and one of 10 052 iterations with an optional capture bound in eight of them - the loop's map has one entry per iteration and exactly those eight hold the binding; capture-heavy generator: `= name` bindings inside first alternatives that then fail, inside maybe/at most/at least 0 iterations that get abandoned, inside recursive subroutines, followed by back-references; inputs are near misses derived from the program; a quarter of the programs under a random amount clause (skip / take / top / last: expected = that window of the reference's list); plus an exhaustive family of 18 capture shapes (two with a named loop that captures inside a stored pattern) (one with two names differing only in letter case) (4 of them inside named loops, directly / under an inner unnamed loop / under an inner named loop) x 4^3 literal choices x all texts over {a,b} up to length 4; and 4 shapes with an OPTIONAL capture on the path tried last (last alternative, lazy loop body, lazy optional) x 3^3 literals x all texts over {a,b,c} up to length 4. Long bindings: `line start whole line = x` then a line feed and a back-reference to x on two-line texts whose first line has 100 .. 70 000 bytes (thorough: .. 262 145; lengths on both sides of 4 096 and 65 536) and whose second line is the first, differs in its first / middle / last / last-but-one / 65 535th / 65 536th byte, is longer or one byte shorter (expected from the text alone). Regex literals with 9..12 numbered groups and a two-digit back-reference (160 generated ones). Name reuse: three programs in which a named loop takes over the name of an earlier capture and a back-reference to that name follows, on texts that hold the printed forms of internal values ([ValueHashMap], map[], <nil> ...) right there: the reference matches nothing. Oracle: reference backtracker with a persistent environment gives the exact expected variable map of every match (spans AND flat variables must equal). Non-trivial = expected match carries >= 1 binding AND the VM backtracked; distinct by (program, text). One random program in thirty has 9..101 captures in a row followed by 1..6 back-references to some of them (last one included), on texts with matching and nearly matching blocks."
 	r.Assumptions = []string{
 		"named-loop variable maps are compared after dropping iteration entries that hold nothing (vore opens the map of an iteration before it knows whether the iteration will run)",
 		"reference matcher semantics as in C01 (word-anchor boundary cases are don't-care)",
@@ -334,6 +334,7 @@ func C02(r *drv.Run) {
 	}
 	c02Long(r)
 	c02Printed(r)
+	c02Late(r)
 	if !quick(r) {
 		c02ManyIterations(r)
 	}
